@@ -1,9 +1,11 @@
 pub mod c03;
+pub mod c13;
+pub mod gen;
 
 use crate::prop::Prop;
 
 pub fn all() -> Vec<&'static dyn Prop> {
-    vec![&c03::C03]
+    vec![&c03::C03, &c13::C13]
 }
 
 pub fn by_id(id: &str) -> Option<&'static dyn Prop> {
